@@ -24,12 +24,12 @@
    expression is typed by the specification and annotated with that type; a value meets a slot of
    exactly its own type, or of type any (wrapped); a literal whose elements have different types is
    []any / {}any with every element wrapped; the empty literal [] / {} may be the value of a
-   declaration, assignment, return or argument; and a value slot of a declaration, assignment, return
+   declaration, assignment, return or argument, or an element of a literal ([[1] []]); and a value slot of a declaration, assignment, return
    or call statement may hold a CONVERTED constant ([conv]: y:[]any ; y = [1 2 3] ,  x := [[1] ["a"]] ,
    a := [1] + [] ): the specification accepts the source expression in the slot (checked:
    [spec_slot]) and the tree is its elementwise conversion, the shape wrapAny builds.  Outside:
    conversions nested inside other expression positions (the operand of an index, a range operand,
-   arguments of calls inside expressions).  Measured on the C02 run: 1751 of 1818 parser-accepted
+   arguments of calls inside expressions).  Measured on the C02 run: 1785 of 1818 parser-accepted
    programs inside. *)
 From Coq Require Import List Bool String.
 From EvyV Require Import Base Ast Sem Static SemSound StaticTypes StaticImpl.
